@@ -10,14 +10,15 @@
 (***************************************************************************)
 EXTENDS PgCopyBin, Export
 
-CONSTANTS MaxRows, MaxCuts
+CONSTANTS MaxRows, MaxCuts, MaxExt
 
 Fields == {[c |-> "null"], [c |-> "e"], [c |-> "v", n |-> 1], [c |-> "v", n |-> 2]}
 Rows == [1..NCols -> Fields]
 Tables == UNION {[1..r -> Rows] : r \in 0..MaxRows}
 
-Base == {[table |-> t, hdr |-> h, trailer |-> tr, corrupt |-> [kind |-> "none"], cuts |-> {}] :
-            t \in Tables, h \in BOOLEAN, tr \in BOOLEAN}
+\* ext: cells of header extension area (only a stream with a header has one)
+Base == {b \in [table : Tables, hdr : BOOLEAN, trailer : BOOLEAN, corrupt : {[kind |-> "none"]}, cuts : {{}}, ext : 0..MaxExt] :
+            b.ext > 0 => b.hdr}
 
 Corruptions(b) ==
     {[kind |-> "none"]}
@@ -48,7 +49,7 @@ SortedSeq(S) == IF S = {} THEN <<>> ELSE LET m == CHOOSE x \in S : \A y \in S : 
 
 Cover == (status = "run" /\ status' # "run") =>
             ExportRecord([table |-> sc.table, hdr |-> sc.hdr, trailer |-> sc.trailer, corrupt |-> sc.corrupt,
-                          cuts |-> SortedSeq(sc.cuts), ncols |-> NCols,
+                          cuts |-> SortedSeq(sc.cuts), ncols |-> NCols, ext |-> sc.ext,
                           expect |-> [rows |-> Len(ExpectedRows(sc)), end |-> ExpectedEnd(sc)]])
 
 Terminates == <>(status # "run")
